@@ -93,6 +93,7 @@ fn parse_field53b_party_identifier(line: &str) -> crate::Result<String> {
         parse_party_identifier(line)?;
         return Ok(line.to_string());
     }
+    parse_swift_chars(line, "Field53B party_identifier")?;
     parse_max_length(line, 34, "Field53B party_identifier")
 }
 
